@@ -269,6 +269,42 @@ def gen_chain(g, filters=0.0):
         if filters and r.random() < filters:
             conts = [v for v in cur if v[0] in 'ao' and v[1]]
             kids = chain_children(r.choice(conts)) if conts else []
+            if r.random() < 0.3:
+                # a query in disjunctive form: b&&b||b..., every b an existence test, its negation or a comparison; no blanks
+                def one_bq():
+                    k0 = r.random()
+                    if k0 < 0.4:
+                        for _t in range(6):
+                            it, isp = gen_inner(r, r.choice(kids) if kids else None)
+                            if all(st[0] not in (2, 3, 4) for st in isp):
+                                break
+                        else:
+                            it, isp = '', []
+                        nums = [x[1] for k1 in kids for x in inner_reach(isp, [k1]) if x[0] == 'n' and x[1] == x[1] and abs(x[1]) < 1e15]
+                        val = (r.choice(nums) if nums and r.random() < 0.8 else float(r.randint(-3, 9))) + r.choice([0, 0, 1, -1, 0.5])
+                        lit = r.choice(['%g' % val, repr(val)])
+                        try:
+                            fv = float(lit)
+                        except ValueError:
+                            lit, fv = '1', 1.0
+                        oc = r.randrange(6)
+
+                        def t(x, isp=isp, oc=oc, fv=fv):
+                            got = inner_reach(isp, [x])
+                            if not got or got[0][0] != 'n':
+                                return oc == 1
+                            a = got[0][1]
+                            return [a == fv, a != fv, a < fv, a <= fv, a > fv, a >= fv][oc]
+                        return '@' + it + ['==', '!=', '<', '<=', '>', '>='][oc] + lit, ('c', isp, oc, [ord(ch) for ch in lit]), t
+                    it, isp = gen_inner(r, r.choice(kids) if kids else None)
+                    if k0 < 0.7:
+                        return '@' + it, ('e', isp), (lambda x, isp=isp: bool(inner_reach(isp, [x])))
+                    return '!@' + it, ('n', isp), (lambda x, isp=isp: not inner_reach(isp, [x]))
+                dnf = [[one_bq() for _ in range(r.choice([1, 2, 2, 3]))] for _ in range(r.choice([1, 1, 2, 2, 3]))]
+                text += '[?(' + '||'.join('&&'.join(b[0] for b in conj) for conj in dnf) + ')]'
+                spec.append((10, [[b[1] for b in conj] for conj in dnf]))
+                cur = [x for v in cur for x in chain_children(v) if any(all(b[2](x) for b in conj) for conj in dnf)]
+                continue
             if r.random() < 0.5:
                 # a comparison with a number literal: the inner path must be single-valued (no wildcard, no `..`)
                 for _t in range(6):
@@ -438,7 +474,7 @@ class C01(EvalProp):
                 doc, text, spec, cur = gen_chain(g, filters=fl)
                 if cur or r.random() < 0.25:
                     break
-            has_filter = any(st[0] in (7, 8, 9) for st in spec)      # C01_filter_retrieval: the text is Coq's fchain_path
+            has_filter = any(st[0] in (7, 8, 9, 10) for st in spec)      # C01_filter_retrieval: the text is Coq's fchain_path
             nodollar = not has_filter and spec[0][0] != 4 and r.random() < 0.25
             if nodollar:
                 # C18_dollar_optional: the same path without its leading $ (a first dot name loses its dot, .* becomes *)
